@@ -54,6 +54,11 @@ CLAIMED = {
         "note": "Trusted: Lean kernel; harness+driver; SF64 = float64. Not yet modelled: patterns, union, identityref, error path/app-tag. Open known finding: decimal64 ranges compared as binary64.",
         "technique": "Lean 4 proof (value-space characterisation per base type) + differential correspondence on boundary probes",
     },
+    "C17": {
+        "text": "Lean 4 theorem that, for every schema tree, every token path and both modes, the path walker over the compiled child maps (tree/container/list/leaf/leaf-list Validate, with addChildren flattening choices and cases into the maps) returns exactly the verdict of a specification written over the data view in which choice and case nodes do not exist: acceptance, and for a rejection the index of the offending token and the reason (C17_walk, by induction on the path with a mutual-induction lemma relating map lookup to the view); the specification is shown equal to an inductive acceptance relation (C17_spec_iff) and to name the first offending element (every token before it walks the view: C17_first_offender). Tied to /repo by compiling generated schemas with the real compiler and validating generated/corrupted paths in both modes.",
+        "note": "Trusted: Lean kernel; harness+driver; the error projection in bin/check. One fix commit (value checked before a trailing token). Multi-key lists and opd nodes are outside the model.",
+        "technique": "Lean 4 proof (walker = specification over the data view, by induction over the path and mutual induction over the schema) + differential correspondence on compiled schemas x corrupted paths",
+    },
 }
 NOT_APPLICABLE = {}
 SOURCE_COMMITS = []  # no hook commits: all observation points are public API
